@@ -39,3 +39,8 @@ Definition check_ccase (fixmeta fixinit : bool) (c : ccase) : bool :=
                                                  end) (cc_reloaded c)
      | None => false
      end.
+
+(* the lightweight tasks the job process of the root executes, in order (heap indices) *)
+Definition plan_ccase (fixmeta : bool) (c : ccase) : list nat :=
+  let fuel := 2 * hash_fuel (cc_heap c) + 16 in
+  exec_plan (save (cc_classes c) fixmeta (cc_heap c) fuel (cc_root c)).
